@@ -256,6 +256,61 @@ def loop_styles():
     return styles
 
 
+# ------------------------------------------------------------------ aliasing patterns (harness/c05_alias.h)
+ALIAS_NARGS = {"add": 3, "sub": 3, "mul": 3, "div": 3, "axpyin": 3, "maxpyin": 3, "axmyin": 3, "neg": 2, "inv": 2, "addin": 2, "subin": 2,
+               "mulin": 2, "divin": 2, "axpy": 4, "axmy": 4, "maxpy": 4, "negin": 1, "invin": 1}
+
+
+def alias_patterns(n):
+    """all set partitions of n argument positions (destination first) as restricted growth strings: every way in which
+    destination and operands can be the same object"""
+    out = []
+
+    def rec(pre, mx):
+        if len(pre) == n:
+            out.append("".join(map(str, pre)))
+            return
+        for c in range(mx + 2):
+            rec(pre + [c], max(mx, c))
+    rec([0], 0)
+    return out
+
+
+def alias_effective(v, pat, vals):
+    """the operand values the call really sees (first value that claims a slot wins), in the order spec_op expects"""
+    assigned, vi, eff = {}, 0, []
+    inplace = v.endswith("in")
+    if inplace:
+        assigned[pat[0]] = vals[0]
+        vi = 1
+    for ch in pat[1:]:
+        if ch not in assigned:
+            assigned[ch] = vals[vi]
+        eff.append(assigned[ch])
+        vi += 1
+    if inplace:
+        eff = [assigned[pat[0]]] + eff
+    return (eff + [0, 0, 0])[:3]
+
+
+def alias_lines(rng, prefix, q, ntrip, zero_ok=False, exhaustive=()):
+    """(line, variant, pattern, vals) for every variant x every aliasing pattern x ntrip operand triples"""
+    N = q - 1
+    out = []
+    edge = [0, 1, N, N // 2, 2 if N >= 2 else 1]
+    for v, n in sorted(ALIAS_NARGS.items()):
+        nv = n if v.endswith("in") else n - 1
+        for pat in alias_patterns(n):
+            if v in exhaustive and q <= 9:
+                trips = [(a, b, c) for a in range(q) for b in range(q if nv >= 2 else 1) for c in range(q if nv >= 3 else 1)]
+            else:
+                trips = [tuple(rng.choice(edge) if rng.chance(1, 3) else rng.range(0, N) for _ in range(3)) for _ in range(ntrip)]
+            for vals in trips:
+                vals = [x if 0 <= x <= N else 0 for x in vals][:max(nv, 1)]
+                out.append(("%s %s %s %s" % (prefix, v, pat, " ".join(map(str, vals))), v, pat, list(vals) + [0, 0]))
+    return out
+
+
 # ------------------------------------------------------------------ case generation
 
 OPS1 = {"neg": 0, "negin": 1, "inv": 2, "invin": 3, "m.sq": 4}
@@ -383,6 +438,25 @@ def gen_ops(rng, fc, per, styles, tier):
         L.append(("pred", "op pred %d %d" % (a, b), None, (a, b)))
         L.append(("same", "op assign %d" % a, None, a))
         L.append(("same", "op reduce %d" % a, None, a))
+    # every scalar op in every aliasing pattern of destination and operands
+    for line, v, pat, vals in alias_lines(rng, "opa", q, 3 if q > 16 else 6):
+        L.append(("opa", line, None, (v, pat, vals)))
+    # array forms with the special scalars (zero, one, mOne)
+    for v in ARR_VARIANTS:
+        for s in sorted({0, N, (N if fc.p == 2 else N // 2)}):
+            if v == "div_s" and s == 0:
+                continue
+            sz = 3
+            r = [rng.range(0, N) for _ in range(sz)]
+            x = [0, N, rng.range(0, N)]
+            y = [rng.range(1, N) if v in ("div",) else rng.range(0, N) for _ in range(sz)]
+            if v == "inv":
+                x = [N, 1 if N > 1 else N, rng.range(1, N)]
+            if v.endswith("_s") and v.startswith("ax"):
+                y = [rng.choice([0, N, rng.range(0, N)])]
+            pre = 1 if styles.get(v, False) else 0
+            tail = "%d %d | %s | %s | %s" % (sz, s, " ".join(map(str, r)), " ".join(map(str, x)), " ".join(map(str, y)))
+            L.append(("arr", "arr %s %s" % (v, tail), "arr %d %d %s" % (ARR_CODE[v], pre, tail), (v, sz, s, r, x, y)))
     # array forms: lengths 0, 1, 2, n
     for v in ARR_VARIANTS:
         for sz in [0, 1, 2, rng.range(3, 9), rng.range(3, 9)]:
@@ -458,7 +532,7 @@ def main(tier, replay=None):
     drv, l1 = vf.ocaml_build(AREA) if os.path.exists(os.path.join(vf.coq_dir(AREA), "ocaml", "model.ml")) else (None, "extraction did not run")
     if drv is None:
         chk.broke("extracted model driver does not build", l1)
-    himpl, l2 = build_harness_retry("c05_gfq.C")
+    himpl, l2 = build_harness_retry("c05_gfq.C", deps=("c05_alias.h",))
     if himpl is None:
         chk.broke("implementation harness c05_gfq.C does not compile against /repo", l2)
         return chk.finish()
@@ -708,6 +782,17 @@ def main(tier, replay=None):
                         chk.broke("correspondence model/implementation differs on %s '%s': model=%s impl=%s" % (fname, il, mg, got))
                 if exp is not None and mg is not None and mg.lstrip("-").isdigit() and val(int(mg)) != exp:
                     chk.broke("extracted model differs from the specification oracle on %s '%s': model=%s" % (fname, il, mg))
+            elif kind == "opa":
+                v, pat, vals = meta
+                bump("opa:" + v)
+                chk.count((fname, il), nontrivial=(vals[0] != 0))
+                ea, eb, ec = alias_effective(v, pat, vals)
+                exp = spec_op(P, v, val(ea), val(eb), val(ec))
+                if exp is None:
+                    continue
+                if not got.lstrip("-").isdigit() or val(int(got)) != exp:
+                    chk.fail_input("GFqDom::" + v, "alias " + pat, case, "rep of %s" % P.num(exp), got,
+                                   "the call with destination/operands aliased as in the pattern differs from polynomial arithmetic modulo f")
             elif kind == "pred":
                 a, b = meta
                 exp = "%d%d%d%d%d%d" % (a == 0, a == N, a == (N if p == 2 else N // 2), a != 0, a == b, a != b)
@@ -857,7 +942,7 @@ def build_harness_retry(src, **kw):
 def ext_part(chk, rng, tier, dist):
     """Extension<GFqDom<int64_t>|Modular<int64_t>>, GFqExtFast/GFqExt<int32_t>, GF2 against the F_p[X]/(f) oracle.
     (GFqKronecker cannot be compiled in this tree: see harness/c05_ext.C.)"""
-    h, l = build_harness_retry("c05_ext.C")
+    h, l = build_harness_retry("c05_ext.C", deps=("c05_alias.h",))
     if h is None:
         chk.broke("implementation harness c05_ext.C does not compile against /repo", l)
         return
@@ -882,6 +967,13 @@ def ext_part(chk, rng, tier, dist):
     for a in (0, 1):
         for b in (0, 1):
             L.append(("gf2 pred e %d %d" % (a, b), "gf2", ("pred", a, b, 0)))
+    for form in "eb":
+        for v, n in sorted(ALIAS_NARGS.items()):
+            nv = n if v.endswith("in") else n - 1
+            for pat in alias_patterns(n):
+                for bits in range(1 << max(nv, 1)):
+                    vals = [(bits >> i) & 1 for i in range(max(nv, 1))]
+                    L.append(("gf2a %s %s %s %s" % (v, form, pat, " ".join(map(str, vals))), "gf2a", (v, pat, vals + [0, 0])))
     # --- Extension<>
     E3 = ["add", "sub", "mul", "div", "addin", "subin", "mulin", "divin"]
     E1 = ["neg", "inv", "negin", "invin", "assign"]
@@ -914,6 +1006,10 @@ def ext_part(chk, rng, tier, dist):
         for v in E4:
             for _ in range(per):
                 L.append(("eop %s %d %d %d" % (v, el(), el(), el()), "eop", v))
+        first_small = (q <= 9 and not any(x[1] == "eopa" for x in L))
+        for line, v, pat, vals in alias_lines(rng, "eopa", q, 2 if tier == "quick" else 8,
+                                              exhaustive=(("axpy", "axmy", "maxpy", "axpyin", "maxpyin", "axmyin") if first_small else ())):
+            L.append((line, "eopa", (v, pat, vals)))
         for _ in range(per):
             L.append(("eop pred %d %d" % (el(), el()), "eop", "pred"))
             L.append(("eop initI %d" % rng.range(0, q - 1), "eop", "initI"))
@@ -944,6 +1040,8 @@ def ext_part(chk, rng, tier, dist):
                 if v == "inv" and a == 0:
                     a = q - 1
                 L.append(("gop %s %d %d %d" % (v, a, b, c), "gop", (v, a, b, c)))
+        for line, v, pat, vals in alias_lines(rng, "gopa", q, 2):
+            L.append((line, "gopa", (v, pat, vals)))
         for a in [0, 1, q - 1] + [rng.range(0, q - 1) for _ in range(per)]:
             L.append(("gconv %d" % a, "gconv", a))
         if cls == "fast":
@@ -999,6 +1097,19 @@ def ext_part(chk, rng, tier, dist):
                 continue
             if got != str(e):
                 chk.fail_input("GF2::" + v, "bitref" if " b " in line else "element", {"line": line}, e, got)
+        elif kind == "gf2a":
+            v, pat, vals = meta
+            chk.count(("gf2a", line), nontrivial=bool(vals[0]))
+            a, b, c = alias_effective(v, pat, vals)
+            if v in ("add", "sub", "addin", "subin"): e = a ^ b
+            elif v in ("mul", "mulin"): e = a & b
+            elif v in ("div", "divin"): e = a if b else None
+            elif v in ("neg", "negin"): e = a
+            elif v in ("inv", "invin"): e = a if a else None
+            elif v in ("axpy", "axmy", "maxpy"): e = (a & b) ^ c
+            else: e = a ^ (b & c)
+            if e is not None and got != str(e):
+                chk.fail_input("GF2::" + v, ("bitref" if " b " in line else "element") + " alias " + pat, {"line": line}, e, got)
         elif kind == "ext":
             base, ctor, p, k, mod = meta
             ctx = "Extension<%s>/%s GF(%d^%d)" % ("GFqDom<int64_t>" if base == "gfq" else "Modular<int64_t>", ctor, p, k)
@@ -1053,6 +1164,16 @@ def ext_part(chk, rng, tier, dist):
                 e = P.num(ee)
             if got != str(e):
                 chk.fail_input("Extension::" + v, "scalar", case, e, got, "result differs from polynomial arithmetic modulo the stored irreducible")
+        elif kind == "eopa":
+            if P is None:
+                continue
+            v, pat, vals = meta
+            chk.count((ctx, line), nontrivial=(vals[0] != 0))
+            ea, eb, ec = alias_effective(v, pat, vals)
+            ee = spec_op(P, v, P.elt(ea), P.elt(eb), P.elt(ec))
+            if ee is not None and got != str(P.num(ee)):
+                chk.fail_input("Extension::" + v, "alias " + pat, {"field": ctx, "line": line}, P.num(ee), got,
+                               "the call with destination/operands aliased as in the pattern differs from polynomial arithmetic modulo the stored irreducible")
         elif kind == "gext":
             cls, p, k, bits, maxn, modout = meta
             ctx = "GFqExt%s<int32_t> GF(%d^%d)" % ("Fast" if cls == "fast" else "", p, k)
@@ -1086,6 +1207,13 @@ def ext_part(chk, rng, tier, dist):
                 continue
             if not got.lstrip("-").isdigit() or not (0 <= int(got) < len(l2p)) or P.elt(l2p[int(got)]) != ee:
                 chk.fail_input("GFqExtFast::" + v, "scalar", {"field": ctx, "line": line}, p2l[P.num(ee)], got)
+        elif kind == "gopa":
+            v, pat, vals = meta
+            chk.count((ctx, line), nontrivial=(vals[0] != 0))
+            ea, eb, ec = alias_effective(v, pat, vals)
+            ee = spec_op(P, v, P.elt(l2p[ea]), P.elt(l2p[eb]), P.elt(l2p[ec]))
+            if ee is not None and (not got.lstrip("-").isdigit() or not (0 <= int(got) < len(l2p)) or P.elt(l2p[int(got)]) != ee):
+                chk.fail_input("GFqExtFast::" + v, "alias " + pat, {"field": ctx, "line": line}, p2l[P.num(ee)], got)
         elif kind == "gconv":
             bits = gmeta[3]
             chk.count((ctx, line), nontrivial=(meta != 0))
